@@ -194,6 +194,10 @@ class RefExec:
         if r[0] == "err":
             self.fail(path, "args", nodes, r[1])
         args = r[1]
+        for a in f.args:
+            # a failing argument hook (@vtgate with an injected fault) fails the field, like any argument coercion error
+            if (f.name, a.name) in self.w.arg_faults and a.name in args and any(d[0] == "vtgate" for d in a.directives):
+                self.fail(path, "args", nodes, "argument hook of %s failed" % a.name)
         pid = ident_of(obj)
         if f.resolver == "explicit":
             self.res.calls.append(("%s.%s" % (T, f.name), pid, canon(args)))
